@@ -175,12 +175,13 @@ class RecordManager:
                 " In the future this will fail"
             )
 
+        now = current_time_millis()
         if question is not None:
             # The replay below skips expired records.  Purge them first (listeners that know
             # them are told now instead of at the next periodic cleanup): otherwise a later
             # refresh of a stale entry reaches the new listener as an update of a record it
-            # was never told about.
-            now = current_time_millis()
+            # was never told about.  Purge and replay use the same clock reading so that no
+            # record can expire between them.
             expired = self.cache.async_expire(now)
             if expired:
                 self.async_updates(now, [RecordUpdate(record, record) for record in expired])
@@ -192,16 +193,15 @@ class RecordManager:
             return
 
         questions = [question] if isinstance(question, DNSQuestion) else question
-        self._async_update_matching_records(listener, questions)
+        self._async_update_matching_records(listener, questions, now)
 
     def _async_update_matching_records(
-        self, listener: RecordUpdateListener, questions: List[DNSQuestion]
+        self, listener: RecordUpdateListener, questions: List[DNSQuestion], now: float
     ) -> None:
         """Calls back any existing entries in the cache that answer the question.
 
         This function must be run from the event loop.
         """
-        now = current_time_millis()
         records: List[RecordUpdate] = [
             RecordUpdate(record, None)
             for question in questions
